@@ -28,9 +28,6 @@ package dhcpd
 //@ guarded v4Server.leasedOffsets by leasesLock
 
 // Helpers that work on the lease table and expect the table lock to be held by the caller.
-//@ func (s *v4Server) reserveLease(mac net.HardwareAddr) (l *dhcpsvc.Lease, err error)
-//@   requires held(s.leasesLock)
-//@   modifies *
 //@ func (s *v4Server) findLease(mac net.HardwareAddr) (l *dhcpsvc.Lease)
 //@   requires held(s.leasesLock)
 //@   modifies *
@@ -50,9 +47,6 @@ package dhcpd
 //@   requires held(s.leasesLock)
 //@   modifies *
 //@ func (s *v4Server) nextIP$1(ip net.IP) (r0 bool)
-//@   requires held(s.leasesLock)
-//@   modifies *
-//@ func (s *v4Server) allocateLease(mac net.HardwareAddr) (l *dhcpsvc.Lease, err error)
 //@   requires held(s.leasesLock)
 //@   modifies *
 
@@ -178,4 +172,27 @@ package dhcpd
 //@   callsites-only
 //@   requires !held(s.leasesLock)
 //@   callsite (*github.com/AdguardTeam/AdGuardHome/internal/dhcpd.v4Server).validHostnameForClient(h, ip) requires dynamic-leases-only: !l.IsStatic
+//@   modifies *
+
+// A lease handed out by reserveLease / allocateLease is already in the table: either it has just been added there or it
+// is a recycled expired lease of the table (trusted by inspection of the two paths; the pool scan is not verified).
+//@ func (s *v4Server) reserveLease(mac net.HardwareAddr) (l *dhcpsvc.Lease, err error)
+//@   trusted
+//@   requires held(s.leasesLock)
+//@   ensures l != nil ==> (l.IP in s.ipIndex) && s.ipIndex[l.IP] == l
+//@   modifies *
+//@ func (s *v4Server) allocateLease(mac net.HardwareAddr) (l *dhcpsvc.Lease, err error)
+//@   trusted
+//@   requires held(s.leasesLock)
+//@   ensures l != nil ==> (l.IP in s.ipIndex) && s.ipIndex[l.IP] == l
+//@   modifies *
+// DECLINE: the replacement lease comes from allocateLease, i.e. it is in the table already - it must not be added a
+// second time (only refreshed), and the database is to be stored after the table has changed.
+//@ func (s *v4Server) handleDecline(req *dhcpv4.DHCPv4, resp *dhcpv4.DHCPv4) (err error)
+//@   property C10
+//@   callsites-only
+//@   requires !held(s.leasesLock)
+//@   callsite-if-present (*github.com/AdguardTeam/AdGuardHome/internal/dhcpd.v4Server).addLease(l) requires not-in-table-yet: !(l.IP in s.ipIndex)
+//@   callsite-if-present (*github.com/AdguardTeam/AdGuardHome/internal/dhcpd.v4Server).commitLease(l, h) requires in-table: (l.IP in s.ipIndex) && s.ipIndex[l.IP] == l
+//@   callsite fieldcall:github.com/AdguardTeam/AdGuardHome/internal/dhcpd.V4ServerConf.notify(flags) requires store-after-the-change: flags != LeaseChangedDBStore || deferred()
 //@   modifies *
